@@ -28,7 +28,7 @@ GARBAGE_VARIANTS = 6
 # --------------------------------------------------------------------------------------------
 # running the harness (a corrupt payload can ABORT the process under test: attribute and resume)
 
-def _qev_resumable(sub, cases, tag, ctx, timeout=3000):
+def _qev_resumable(sub, cases, tag, ctx, heavy=0, timeout=3000):
     inp = os.path.join(ctx.work, f"{tag}.in.ndjson")
     outp = os.path.join(ctx.work, f"{tag}.out.ndjson")
     files = os.path.join(ctx.work, f"{tag}.files")
@@ -41,7 +41,7 @@ def _qev_resumable(sub, cases, tag, ctx, timeout=3000):
     try:
         while rest:
             write_ndjson(inp, rest)
-            p = vlib.qev([sub, inp, outp, files], timeout=timeout, check=False)
+            p = vlib.qev([sub, inp, outp, files, str(heavy)], timeout=timeout, check=False)
             recs = read_ndjson(outp) if os.path.exists(outp) else []
             new = len(recs) - done
             done = len(recs)
@@ -74,13 +74,13 @@ def _qev_resumable(sub, cases, tag, ctx, timeout=3000):
         shutil.rmtree(files, ignore_errors=True)
 
 
-def run_parallel(sub, cases, tag, ctx, procs):
+def run_parallel(sub, cases, tag, ctx, procs, heavy=0):
     if not cases:
         return []
     procs = max(1, min(procs, len(cases) // 50 + 1))
     chunks = [cases[k::procs] for k in range(procs)]
     with concurrent.futures.ThreadPoolExecutor(max_workers=procs) as ex:
-        futs = [ex.submit(_qev_resumable, sub, ch, f"{tag}{k}", ctx) for k, ch in enumerate(chunks)]
+        futs = [ex.submit(_qev_resumable, sub, ch, f"{tag}{k}", ctx, heavy) for k, ch in enumerate(chunks)]
         outs = [f.result() for f in futs]
     recs = [r for o in outs for r in o]
     recs.sort(key=lambda r: r["cid"])
@@ -124,7 +124,7 @@ def realisations(topo):
     return m
 
 
-def concrete_fault(kind, kept, tname, shard, rng):
+def concrete_fault(kind, kept, tname, shard, rng, light=False):
     f = {"t": tname, "i": shard}
     if kind == "transport":
         f["kind"] = "transport"
@@ -145,13 +145,14 @@ def concrete_fault(kind, kept, tname, shard, rng):
     elif kind == "trunc_eos":
         f.update(kind="trunc", cls="eos", sel=rng.randrange(8))
     elif kind == "corrupt":
-        f.update(kind="garbage", sel=rng.randrange(GARBAGE_VARIANTS))
+        # variants 0, 1, 3 make the decoder zero ~2 GB (a foreign body's first bytes read as a length): thorough only
+        f.update(kind="garbage", sel=(rng.choice([2, 4, 5]) if light else rng.randrange(GARBAGE_VARIANTS)))
     else:
         raise vlib.ToolError(f"unknown model kind {kind}")
     return f
 
 
-def concretise(c, stmt, topo, rng, cid):
+def concretise(c, stmt, topo, rng, cid, light=False):
     n, me = c["n"], c["self"] - 1
     tr = topo[(stmt, n, me)]
     tabs = tr["tables"]
@@ -160,7 +161,7 @@ def concretise(c, stmt, topo, rng, cid):
         tname, shard = tabs[fr["t"] - 1], fr["i"] - 1
         remote.append([tname, shard])
         if fr["kind"] != "ok":
-            faults.append(concrete_fault(fr["kind"], fr["kept"], tname, shard, rng))
+            faults.append(concrete_fault(fr["kind"], fr["kept"], tname, shard, rng, light))
     rng.shuffle(remote)
     case = {"cid": cid, "stmt": stmt, "n": n, "self": me, "local": "ok", "faults": faults, "order": remote,
             "model": {"kinds": sorted(fr["kind"] for fr in c["frags"]), "locals": c["locals"][:c["T"]], "allowed": sorted(c["allowed"])}}
@@ -280,7 +281,7 @@ def http_trace_rec(rec):
         if "t" not in s:
             continue
         a = s.get("applied")
-        if a == "none":
+        if a in ("none", "skipped"):
             k = "ok"
         elif a == "close":
             k = "transport"
@@ -324,10 +325,11 @@ def tlc_judge(ctx, trecs, dev, name):
     return bad, drift
 
 
-def judge(ctx, cases, recs, trecs, name, bind):
+def judge(ctx, cases, recs, trecs, name):
     """contract first; what it rejects is re-judged under the one listed deviation"""
     bad, drift = tlc_judge(ctx, trecs, 0, name)
     for i, what in drift:
+        bind = trecs[i]["bind"]
         if what == "panic":
             ctx.add("panics_counted_as_errors")
             if ctx.cov.get("panics_counted_as_errors", 0) <= 2:
@@ -342,8 +344,9 @@ def judge(ctx, cases, recs, trecs, name, bind):
         sub = [trecs[i] for i in bad]
         bad2, _ = tlc_judge(ctx, sub, 1, name + "-dev")
         still = {bad[j] for j in bad2}
-        for i in bad:
+        for i in sorted(bad, key=lambda i: (trecs[i]["outcome"] != "short", recs[i].get("stmt") != "concat", i)):
             r, t = recs[i], trecs[i]
+            bind = t["bind"]
             example = {"bind": bind, "stmt": r.get("stmt"), "n": r.get("n"), "faults": r.get("faults"), "outcome": t["outcome"],
                        "rows_got": r.get("rows_got"), "rows_full": r.get("rows_full"), "lost": t["lost"]}
             if i not in still and ctx.is_known(F_SHORT):
@@ -510,38 +513,45 @@ def http_cases(rng, quick, cid0, hlay):
 # --------------------------------------------------------------------------------------------
 
 def model_runs(ctx, quick):
-    """(M): exhaustive model, kill matrix, and the as-built counterexample; run side by side"""
-    main_cfgs = ["Scatter_quick.cfg"] if quick else ["Scatter_thorough.cfg", "Scatter_gather_thorough.cfg", "Scatter_gather3_thorough.cfg"]
-    jobs = [("main", c) for c in main_cfgs] + [("mut", f"Scatter_mutants_{ctx.tier}.cfg"), ("cex", "Scatter_asbuilt_cex.cfg")]
+    """(M): exhaustive model + kill matrix (+ in thorough the as-built counterexample as its own run)"""
+    if quick:
+        jobs = [("main+mut", "Scatter_quick.cfg")]
+    else:
+        jobs = [("main", c) for c in ("Scatter_thorough.cfg", "Scatter_gather_thorough.cfg", "Scatter_gather3_thorough.cfg")]
+        jobs += [("mut", "Scatter_mutants_thorough.cfg"), ("cex", "Scatter_asbuilt_cex.cfg")]
 
     def one(job):
         what, cfg = job
-        return job, run_tlc("Scatter", cfg, workers=(3 if quick else 6), timeout=3300, heap="6g", tag=f"C10-{cfg[:-4]}",
+        return job, run_tlc("Scatter", cfg, workers=(4 if quick else 6), timeout=3300, heap="6g", tag=f"C10-{cfg[:-4]}",
                             coverage=(what == "main" and not quick))
-    with concurrent.futures.ThreadPoolExecutor(max_workers=3 if quick else 2) as ex:
+    with concurrent.futures.ThreadPoolExecutor(max_workers=2) as ex:
         results = list(ex.map(one, jobs))
     cases = []
     cover = collections.Counter()
+    killed = collections.Counter()
     for (what, cfg), res in results:
-        if what == "main":
-            tlc_must_pass(res, f"Scatter ({cfg})")
-            ctx.tlc_stats(res, f"Scatter {cfg}: NoPartial, AnyFault, Contract, FaultFreeAnswers, NothingBeforeAll, BlameIsGuilty; deadlock-free")
-            cases += res.cases
-            for a, n in res.coverage.items():
-                cover[a] += n
-        elif what == "mut":
-            tlc_must_pass(res, f"Scatter kill matrix ({cfg})")
-            ctx.tlc_stats(res, f"Scatter {cfg}: kill matrix over {len(MUTANTS)} mutants; ContractDev holds for short_stream")
-            killed = collections.Counter(r["mut"] for k, r in res.prints if k == "KILL")
-            for m in MUTANTS:
-                if killed[m] == 0:
-                    raise vlib.ToolError(f"the contract does not reject mutant {m} in any state: the invariants are too weak")
-            ctx.set("mutants_rejected_by_the_contract", dict(sorted(killed.items())))
-        else:
+        if what == "cex":
             if res.violated != "NoPartial2":
                 log(res.out[-3000:])
                 raise vlib.ToolError("Scatter_asbuilt_cex: the model of the unchanged tree's decoder no longer violates NoPartial")
             ctx.tlc_stats(res, "Scatter_asbuilt_cex: the as-built decoder (short_stream) violates NoPartial in the model (known finding reproduced)")
+            continue
+        tlc_must_pass(res, f"Scatter ({cfg})")
+        if "main" in what:
+            ctx.tlc_stats(res, f"Scatter {cfg}: NoPartial, AnyFault, Contract, FaultFreeAnswers, NothingBeforeAll, BlameIsGuilty; deadlock-free"
+                          + ("; kill matrix over the mutants, ContractDev for short_stream" if "mut" in what else ""))
+            cases += res.cases
+            for a, n in res.coverage.items():
+                cover[a] += n
+        else:
+            ctx.tlc_stats(res, f"Scatter {cfg}: kill matrix over {len(MUTANTS)} non-ideal designs; ContractDev holds for short_stream")
+        for k, r in res.prints:
+            if k == "KILL":
+                killed[r["mut"]] += 1
+    for m in MUTANTS:
+        if killed[m] == 0:
+            raise vlib.ToolError(f"the contract does not reject mutant {m} in any state: the invariants are too weak")
+    ctx.set("mutants_rejected_by_the_contract", dict(sorted(killed.items())))
     if not quick:
         for a in ACTIONS:
             if cover.get(a, 0) == 0:
@@ -565,7 +575,7 @@ def run(ctx):
     if len(mcases) < 1000:
         raise vlib.ToolError(f"Scatter emitted only {len(mcases)} terminal states")
     real = realisations(topo)
-    picked, n_uniq, n_real = pick_model_cases(mcases, real, rng, 1500 if quick else 60000)
+    picked, n_uniq, n_real = pick_model_cases(mcases, real, rng, 1100 if quick else 60000)
     ctx.set("tlc_terminal_states", len(mcases))
     ctx.set("tlc_distinct_fault_vectors", n_uniq)
     ctx.set("tlc_fault_vectors_realisable_on_the_tables", n_real)
@@ -574,12 +584,17 @@ def run(ctx):
         stmts = real[(c["T"], c["n"], c["self"] - 1, tuple(c["k"][:c["T"]]))]
         for stmt in ([rng.choice(stmts)] if (quick or nfaults(c) > 1) else stmts):
             cid += 1
-            cases.append(concretise(c, stmt, topo, rng, cid))
+            cases.append(concretise(c, stmt, topo, rng, cid, light=quick))
     nvec = len(cases)
     cases += sweep_cases(topo, rng, quick, 1_000_000)
-    recs = run_parallel("dist-replay", cases, "rep", ctx, 3 if quick else 6)
+    recs = run_parallel("dist-replay", cases, "rep", ctx, 3 if quick else 6, heavy=(0 if quick else 3))
+    # a corrupted length that would make the decoder zero 48 MB .. 16 TB is run only within a small per-process budget
+    skipped = {r["cid"] for r in recs if r["outcome"] == "skipped"}
+    ctx.set("corruptions_skipped_as_too_heavy", len(skipped))
+    cases = [c for c in cases if c["cid"] not in skipped]
+    recs = [r for r in recs if r["cid"] not in skipped]
+    nvec = sum(1 for c in cases if c["cid"] < 1_000_000)
     trecs = [trace_rec(r) for r in recs]
-    judge(ctx, cases, recs, trecs, "inproc", "inproc")
 
     # ---- second binding: real sockets
     hprobe = []
@@ -600,7 +615,10 @@ def run(ctx):
     hrecs = run_parallel("dist-http", hcases, "http", ctx, 1 if quick else 3)
     htrecs = [http_trace_rec(r) for r in hrecs]
     hcases_by = {c["cid"]: c for c in hcases}
-    judge(ctx, [hcases_by[r["cid"]] for r in hrecs], hrecs, htrecs, "http", "http")
+    hskip = sum(1 for r in hrecs for s in r.get("sends", []) if s.get("applied") == "skipped")
+    ctx.set("http_corruptions_skipped_as_too_heavy", hskip)
+    # one TLC pass judges the executions of both bindings
+    judge(ctx, cases + [hcases_by[r["cid"]] for r in hrecs], recs + hrecs, trecs + htrecs, "exec")
 
     # ---- evidence, vacuity
     evidence(ctx, topo, cases, recs, trecs, hrecs, htrecs, nvec, quick)
@@ -703,7 +721,7 @@ def replay(ctx, obj):
     else:
         recs = run_parallel("dist-replay", [c], "replay", ctx, 1)
         trecs = [trace_rec(r) for r in recs]
-    judge(ctx, [c], recs, trecs, "replay", bind)
+    judge(ctx, [c], recs, trecs, "replay")
     ctx.add("evaluations")
     ctx.set("distinct_nontrivial", 1)
     ctx.sample({"record": trecs[0], "err": recs[0].get("err")})
@@ -716,54 +734,61 @@ def selftest(ctx):
         {"cid": 2, "stmt": "concat", "n": 3, "self": 0, "local": "ok", "faults": [{"t": "t", "i": 1, "kind": "transport"}]},
         {"cid": 3, "stmt": "group", "n": 3, "self": 0, "local": "ok", "faults": [{"t": "t", "i": 2, "kind": "http", "status": 503}]},
         {"cid": 4, "stmt": "gunion", "n": 2, "self": 0, "local": "ok", "faults": [{"t": "u", "i": 1, "kind": "trunc", "cls": "inmsg", "sel": 77}]},
-        # transports that stay well-formed but silently lose rows (what filter_map(Result::ok) / '503 = empty' amount to)
+        # transports that stay well-formed but silently lose rows (what filter_map(Result::ok) / '503 = empty result' amount to)
         {"cid": 5, "stmt": "concat", "n": 3, "self": 0, "local": "ok", "faults": [{"t": "t", "i": 1, "kind": "droprows"}]},
         {"cid": 6, "stmt": "group", "n": 3, "self": 0, "local": "ok", "faults": [{"t": "t", "i": 2, "kind": "emptyok"}]},
         {"cid": 7, "stmt": "gunion", "n": 3, "self": 0, "local": "ok", "faults": [{"t": "u", "i": 1, "kind": "emptyok"}]},
-        {"cid": 8, "stmt": "topn", "n": 2, "self": 1, "local": "ok", "faults": [{"t": "t", "i": 0, "kind": "droprows"}]},
+        {"cid": 8, "stmt": "topn", "n": 2, "self": 1, "local": "ok", "faults": [{"t": "t", "i": 0, "kind": "emptyok"}]},
     ]
     recs = run_parallel("dist-replay", base, "selftest", ctx, 1)
     trecs = [trace_rec(r) for r in recs]
-    bad, _ = tlc_judge(ctx, trecs[:4], 0, "selftest-orig")
-    if bad or trecs[0]["outcome"] != "full" or any(t["outcome"] != "err" for t in trecs[1:4]):
-        print("selftest: the unmodified executions are rejected, or a plain fault did not fail the query")
+    if trecs[0]["outcome"] != "full" or any(t["outcome"] != "err" for t in trecs[1:4]):
+        print("selftest: a plain fault did not fail the query, or the fault-free run did not answer")
         return 1
-    # 1. expectation flipped
+    tests = []   # (record, description); every one of them must be rejected under DEV=0 AND under DEV=1
     for i, why in ((1, "transport error, but the query is reported as answered"), (2, "HTTP 503, but the query is reported as answered"),
                    (3, "payload cut inside a message, but the query is reported as answered")):
         t = copy.deepcopy(trecs[i])
         t["outcome"] = "full"
-        for dev in (0, 1):
-            b, _ = tlc_judge(ctx, [t], dev, "selftest-mut")
-            print(f"selftest: {'rejected' if b else 'ACCEPTED (binding lost)'} (DEV={dev}): {why}")
-            missed += 0 if b else 1
+        tests.append((t, "expectation flipped: " + why))
     t = copy.deepcopy(trecs[0])
     t["outcome"] = "short"
-    b, _ = tlc_judge(ctx, [t], 1, "selftest-mut")
-    print(f"selftest: {'rejected' if b else 'ACCEPTED (binding lost)'}: a fault-free run reported with missing rows")
-    missed += 0 if b else 1
-    # 2. a transport that silently drops rows must surface as a partial answer and be rejected
+    tests.append((t, "expectation flipped: a fault-free run reported with missing rows"))
     for r, t in zip(recs[4:], trecs[4:]):
         if t["outcome"] != "short":
-            print(f"selftest: MISSED: transport dropped {t['lost']} rows of `{r['stmt']}` but the answer was classified {t['outcome']}")
+            print(f"selftest: MISSED: the transport dropped {t['lost']} rows of `{r['stmt']}` but the answer was classified {t['outcome']}")
             missed += 1
-            continue
-        b0, _ = tlc_judge(ctx, [t], 0, "selftest-mut")
-        b1, _ = tlc_judge(ctx, [t], 1, "selftest-mut")
-        ok = bool(b0) and bool(b1)
-        print(f"selftest: {'rejected' if ok else 'ACCEPTED (binding lost)'}: `{r['stmt']}` answered {r.get('rows_got')} of {r.get('rows_full')} rows after a transport silently dropped rows (also not excused by the known deviation)")
+        else:
+            tests.append((t, f"`{r['stmt']}` answered {r.get('rows_got')} rows / other values than the full {r.get('rows_full')}-row answer after a transport silently dropped rows"))
+    tests.append(({"cid": 9, "bind": "inproc", "kinds": ["trunc_boundary", "transport"], "locals": ["ok"], "outcome": "short", "lost": 5},
+                  "short answer with a boundary cut AND a dead node (outside the known finding's signature)"))
+    tests.append(({"cid": 10, "bind": "inproc", "kinds": ["trunc_boundary", "ok"], "locals": ["ok"], "outcome": "short", "lost": 0},
+                  "short answer although the cut withheld no row"))
+    tests.append(({"cid": 11, "bind": "inproc", "kinds": ["flip", "ok"], "locals": ["ok"], "outcome": "short", "lost": 0},
+                  "a single corrupted byte changed the number of rows of the answer"))
+    tests.append(({"cid": 12, "bind": "inproc", "kinds": ["ok", "ok"], "locals": ["err"], "outcome": "full", "lost": 0},
+                  "the initiator's own shard failed, but the query is reported as answered"))
+    for k, (t, _) in enumerate(tests):
+        t["cid"] = 100 + k
+    good = trecs[:4]
+    b0, _ = tlc_judge(ctx, good + [t for t, _ in tests], 0, "selftest-dev0")
+    b1, _ = tlc_judge(ctx, good + [t for t, _ in tests], 1, "selftest-dev1")
+    if any(i < len(good) for i in b0 + b1):
+        print("selftest: the unmodified executions are rejected")
+        return 1
+    for k, (t, why) in enumerate(tests):
+        ok = (len(good) + k) in b0 and (len(good) + k) in b1
+        print(f"selftest: {'rejected' if ok else 'ACCEPTED (binding lost)'}: {why}")
         missed += 0 if ok else 1
-    # 3. the deviation excuses only its own shape: a boundary cut together with a dead node must still be an error
-    t = {"cid": 9, "bind": "inproc", "kinds": ["trunc_boundary", "transport"], "locals": ["ok"], "outcome": "short", "lost": 5}
-    b, _ = tlc_judge(ctx, [t], 1, "selftest-mut")
-    print(f"selftest: {'rejected' if b else 'ACCEPTED (binding lost)'}: short answer with a boundary cut AND a dead node (outside the known finding's signature)")
-    missed += 0 if b else 1
-    t = {"cid": 10, "bind": "inproc", "kinds": ["trunc_boundary", "ok"], "locals": ["ok"], "outcome": "short", "lost": 0}
-    b, _ = tlc_judge(ctx, [t], 1, "selftest-mut")
-    print(f"selftest: {'rejected' if b else 'ACCEPTED (binding lost)'}: short answer although the cut withheld no row")
-    missed += 0 if b else 1
-    # 4. the model side: every named mutant must be rejected by the contract
-    res = run_tlc("Scatter", "Scatter_mutants_quick.cfg", workers=2, timeout=1200, tag="C10-selftest-mut")
+    # the known deviation excuses exactly its own shape
+    t = {"cid": 200, "bind": "inproc", "kinds": ["trunc_boundary", "ok"], "locals": ["ok"], "outcome": "short", "lost": 5}
+    b0, _ = tlc_judge(ctx, [t], 0, "selftest-dev0")
+    b1, _ = tlc_judge(ctx, [t], 1, "selftest-dev1")
+    ok = bool(b0) and not b1
+    print(f"selftest: {'ok' if ok else 'WRONG'}: a boundary cut answered short is rejected by the contract and explained only by the listed deviation")
+    missed += 0 if ok else 1
+    # the model side: every named mutant must be rejected by the contract
+    res = run_tlc("Scatter", "Scatter_quick.cfg", workers=4, timeout=1800, tag="C10-selftest-mut")
     killed = collections.Counter(r["mut"] for k, r in res.prints if k == "KILL")
     for m in MUTANTS:
         print(f"selftest: model mutant {m}: {'rejected by the contract in %d states' % killed[m] if killed[m] else 'SURVIVES'}")
